@@ -131,7 +131,9 @@ pub fn apply_ref<S: SetLike>(c: &mut Composite<S>, op: &KOp) -> KRes {
             Ok(Some(byte)) => c.sc.advance_state(byte),
         }),
         // words likewise
-        KOp::Word(w) => KRes::Ev(match c.ps2.add_word(*w) {
+        // (the whole-word check is stateless: it is done on a fresh frame decoder so that, whatever the real
+        // add_word does, the reference's bit-framing state is left alone)
+        KOp::Word(w) => KRes::Ev(match Ps2Decoder::new().add_word(*w) {
             Err(e) => Err(e),
             Ok(byte) => c.sc.advance_state(byte),
         }),
